@@ -32,12 +32,16 @@ DECIDED = [
     "R-OWN: place-mutating calls occur only inside their broker package; Redis keys are built only by qnc/mnc; terminal operations are called only from the known owners",
     "R-C01-TRANSFER (names, gate): every Redis list / sorted-set name built for a message carries that message's priority (one named exception: the orphan clean-up); dead-lettering on delivery happens only for NORMAL consumers (C12's gate rules reused: a nack from a DELAYED/DEAD reader has no dead-letter target)",
     "R-C01-TRANSFER (round 4): RabbitMQ consume() returns a completed queue.get() before anything else in that iteration; the in-memory delayed->waiting promotion reads the clock once and removes exactly what it promoted (C05's CMP rules reused)",
+    "R-C01-TRANSFER / R-C01-SOURCE (round 5): categories are compared by equality (str-Enum: the plain string value is an accepted category); the maintenance age test reads the clock like every other expiry test (clock family)",
 ]
 NOT_DECIDED = ["the whole-history statement under concurrent clients of Redis/RabbitMQ (partly C14)", "server-side behaviour", "'well-behaved client' preconditions"]
 ASSUMPTIONS = ["redis-py pipeline(transaction=True) buffers commands and sends them in one MULTI/EXEC on execute()", "asyncio: code between two awaits is atomic"]
 
 
 def run(ctx: Ctx) -> None:
+    from .shared import category_equality
+
+    category_equality(ctx, "R-C01-SOURCE")
     inmem_storage(ctx)
     inmem_transfer_atomic(ctx)
     inmem_consume_rules(ctx, rule_a="R-C01-ATOMIC")
@@ -59,6 +63,9 @@ def run(ctx: Ctx) -> None:
     from .brokers import rabbit_consume_keeps_fetched
 
     rabbit_consume_keeps_fetched(ctx, "R-C01-TRANSFER")
+    from .shared import clock_family
+
+    clock_family(ctx, "R-C01-TRANSFER")  # maintenance hands a held message back only when it really timed out: its age is computed with the same clock reading as every other expiry test
     own_rules(ctx)
     terminal_callers_rule(ctx, "R-OWN")
 
